@@ -148,6 +148,27 @@ def _dag_structure(root: Any) -> collections.Counter:
           children,
           key=lambda child: (type(child[1].key).__qualname__, repr(child[1].key)),
       )
+    elif isinstance(value, Buildable):
+      # Neither must the order in which `**kwargs` arguments were assigned:
+      # arguments of declared parameters come in signature order, the others
+      # are visited by name.
+      children = list(children)
+      parameters = value.__signature_info__.parameters
+      def by_keyword_only(child):
+        element = child[1]
+        if not isinstance(element, daglish.Attr):
+          return False
+        param = parameters.get(element.name)
+        return param is None or param.kind not in (
+            param.POSITIONAL_OR_KEYWORD,
+            param.KEYWORD_ONLY,
+        )
+      declared = [child for child in children if not by_keyword_only(child)]
+      extra = sorted(
+          (child for child in children if by_keyword_only(child)),
+          key=lambda child: child[1].name,
+      )
+      children = declared + extra
     for sub_value, element in children:
       visit(sub_value, path + (element,))
 
